@@ -160,9 +160,9 @@ def branch_order_case(job):
     return None
 
 
-def _cfg(mc, mt, mb, emit):
-    return ('SPECIFICATION Spec\nCHECK_DEADLOCK FALSE\nCONSTANTS\n  MaxCommits = %d\n  MaxTags = %d\n  MaxBranches = %d\n  Emit = %s\n'
-            % (mc, mt, mb, 'TRUE' if emit else 'FALSE'))
+def _cfg(mc, mt, mb, emit, shape='any'):
+    return ('SPECIFICATION Spec\nCHECK_DEADLOCK FALSE\nCONSTANTS\n  MaxCommits = %d\n  MaxTags = %d\n  MaxBranches = %d\n  Emit = %s\n  Shape = "%s"\n'
+            % (mc, mt, mb, 'TRUE' if emit else 'FALSE', shape))
 
 
 def run(ctx):
@@ -172,6 +172,12 @@ def run(ctx):
     ctx.tlc('ghist/GHistCases.tla', _cfg(3, 2, 2, False) + 'INVARIANT Satisfiable\n', workers=16, timeout=3000)
     r = ctx.tlc('ghist/GHistCases.tla', _cfg(3 if ctx.quick else 4, 2, 3 if ctx.quick else 2, True), workers=16, timeout=7200, heap='16g')
     hs = [h for h in r.printed if isinstance(h, dict)]
+    # two parallel built lines that are merged plus a line that continues one of them (5 commits, fixed parents relation):
+    # every choice of matching commits, up to 2 tags and the heads of up to 2 branches
+    r = ctx.tlc('ghist/GHistCases.tla', _cfg(5, 2, 2, True, 'diamond'), workers=16, timeout=7200, heap='16g')
+    dia = [h for h in r.printed if isinstance(h, dict)]
+    ctx.extra['histories_diamond_family'] = len(dia)
+    hs += dia
     n_exh = len(hs)
     if n_exh < 1000:
         raise Machinery('GHistCases emitted %d histories' % n_exh)
